@@ -69,6 +69,27 @@ func decomposeCond(v ssa.Value) (a atom, ok bool) {
 			a.v = v
 		}
 	}()
+	if nv, nval := normalizeCond(v, true); nv != v || !nval {
+		if _, isBin := nv.(*ssa.BinOp); isBin || !nval {
+			orig := v
+			a, ok := decomposeCondN(nv)
+			if !nval {
+				a.neg = !a.neg
+			}
+			a.v = nv
+			_ = orig
+			return a, ok
+		}
+	}
+	return decomposeCondN(v)
+}
+
+func decomposeCondN(v ssa.Value) (a atom, ok bool) {
+	defer func() {
+		if a.v == nil {
+			a.v = v
+		}
+	}()
 	switch x := v.(type) {
 	case *ssa.UnOp:
 		if x.Op == token.NOT {
